@@ -94,7 +94,8 @@ func (c *dupSubExprChecker) checkBinaryExpr(expr *ast.BinaryExpr) {
 }
 
 func (c *dupSubExprChecker) resultIsFloat(expr ast.Expr) bool {
-	typ, ok := c.ctx.TypeOf(expr).(*types.Basic)
+	// Defined float types (type Celsius float64) can hold a NaN too.
+	typ, ok := c.ctx.TypeOf(expr).Underlying().(*types.Basic)
 	return ok && typ.Info()&types.IsFloat != 0
 }
 
